@@ -676,6 +676,12 @@ class ExpMat:
             out = ExpMat(self.n, self.D - k, lambda t: rf(t), Region("fresh"), self.dtype)
             out.column_tail_of = (self, k)
             return out
+        if isinstance(idx, (list, V.Seq)) and not isinstance(idx, BoolVec):
+            # numpy: a list of truth values used as an index is a boolean mask over the first axis
+            seq = V.as_seq(ex, idx, node)
+            probe = seq.item(z3.Int(ex.ctx.fresh("probe")) if not isinstance(seq.n, int) else 0) if not (isinstance(seq.n, int) and seq.n == 0) else True
+            if isinstance(probe, (bool, z3.BoolRef)):
+                idx = BoolVec(seq.n, lambda k: V._as_bool(seq.item(k)))
         if isinstance(idx, BoolVec):
             ex.oblige(f"pre({ex.site('row_mask')}).length", idx.n == self.n, "precondition", node)
             sel = V.selection_for(ex, self.n, idx.at)
